@@ -72,7 +72,15 @@ RULE = ("seq: references of 2-4 sequences of 1-3000 bases over ACGTN + IUPAC amb
         "ctor / db; look: 1-3 GFF3 transcripts of 3-8 disjoint segments typed with the block name or one of its 3-5 "
         "look-alikes (8 families; 18% with a look-alike as outermost segment), thick-type or look-alike pieces inside 60% of "
         "the segments and look-alike pieces in gaps, 2-4 calls each: requested = the family name (or in 25% a look-alike "
-        "itself, 10-15% a list of the name and a twin) as str or list, by id / Feature, to_bed12 in 30%")
+        "itself, 10-15% a list of the name and a twin) as str or list, by id / Feature, to_bed12 in 30%; "
+        "alt: the bed12 cases in GFF3 with, per transcript, children recorded on ANOTHER seqid (5 alternate names): the first "
+        "block, the last block, an inner block, the first / last CDS, a random subset, all children, or one further block "
+        "feature past the transcript's end / before its start, same calls; "
+        "stale: a GFF3 bed12 case, one transcript, 1-2 calls; the transcript record replaced through update(merge_strategy="
+        "'replace') with another extent (45% exactly the exons' span, else off by 1 / 2 / 50 on one end, widened, or random) "
+        "and 50% another score, on a memory or file database; a Feature fetched BEFORE (25% through a second handle on the "
+        "file opened before the replace) or a fetched Feature whose start/end the caller assigns (25%, database untouched); "
+        "bed12 by id, by a fresh copy, by id through the older handle are judged, the call with the stale object is counted")
 REQUIRED = ["len(feature) checked", "sequence() by other spellings of the path compared", "sequence() by path compared", "sequence() by pyfaidx.Fasta object compared",
             "sequence() minus strand reverse-complemented", "sequence() minus strand with use_strand=False",
             "sequence(): features from a database", "bed12 calls by id", "bed12 calls by Feature", "bed12 lines compared",
@@ -146,7 +154,23 @@ REQUIRED = ["len(feature) checked", "sequence() by other spellings of the path c
             "bed12 look-alike types: ValueError expected and raised",
             "bed12 look-alike types: ValueError expected and raised while only a look-alike child reaches the transcript boundary",
             "bed12 look-alike types: single-block exports while only look-alike children exist",
-            "bed12 look-alike types: to_bed12 lines compared"]
+            "bed12 look-alike types: to_bed12 lines compared",
+            "bed12 other-seqid children: lines compared with a block feature on another seqid (one block per block feature)",
+            "bed12 other-seqid children: first block on another seqid", "bed12 other-seqid children: last block on another seqid",
+            "bed12 other-seqid children: inner block on another seqid", "bed12 other-seqid children: every block on another seqid",
+            "bed12 other-seqid children: thick range judged whose first / last thick feature is on another seqid",
+            "bed12 other-seqid children: ValueError expected and raised with a block feature on another seqid",
+            "bed12 other-seqid children: ValueError expected and raised while the blocks on the transcript's own seqid alone would span it",
+            "bed12 other-seqid children: to_bed12 lines compared",
+            "bed12 stale objects: records replaced with other coordinates through update(merge_strategy='replace')",
+            "bed12 stale objects: objects fetched through a handle opened before the replace",
+            "bed12 stale objects: objects edited by the caller (start/end assigned)",
+            "bed12 stale objects: bed12 given the id judged against the record as it is now",
+            "bed12 stale objects: bed12 given a fresh copy of the record judged against the record as it is now",
+            "bed12 stale objects: bed12 given the id, asked of the handle opened before the replace judged against the record as it is now",
+            "bed12 stale objects: ValueError expected from the record as it is now",
+            "bed12 stale objects: bed12 given the stale / edited object (not judged)",
+            "bed12 stale objects: bed12 given the id judged again after the call with the stale object"]
 
 REQUIRED_CLASSES = ["bed12 substring names layout=flat", "bed12 substring names layout=nested", "seqtwin order",
                     "seqtwin bases", "seqtwin move", "bed12 deep target=gene", "bed12 deep target=transcript via intermediate", "bed12 deep fmt=gtf",
@@ -157,6 +181,9 @@ REQUIRED_CLASSES = ["bed12 substring names layout=flat", "bed12 substring names 
                     "seq look-alike record names origin=line", "seq look-alike record names origin=ctor",
                     "seq look-alike record names origin=db", "bed12 look-alike types",
                     "bed12 look-alike types: spanning", "bed12 look-alike types: look-alike at the boundary",
+                    "bed12 children on another seqid", "bed12 other seqid: first block", "bed12 other seqid: last block",
+                    "bed12 other seqid: thick first", "bed12 other seqid: beyond", "bed12 other seqid: all",
+                    "bed12 stale object: replace", "bed12 stale object: older_handle", "bed12 stale object: edited",
                     "seqobj as_raw=True", "seqobj as_raw=False", "single block by id", "bed12 fmt=gff3", "bed12 fmt=gtf", "blocks=0", "blocks=1", "blocks>=2", "non-spanning", "strand -", "strand +"]
 ASSUMPTIONS = [
     "'ascending order' = by start; children selected as blocks or thick features share a start only when they also share "
@@ -188,6 +215,15 @@ ASSUMPTIONS = [
     "'the named sequence' = the record whose name EQUALS feature.seqid (code point by code point); records whose names differ "
     "in letter case or normalisation form are other sequences; such names are generated only in forms pyfaidx accepts as "
     "distinct keys; 'block / thick features' of a call = children whose featuretype EQUALS one of the given names",
+    "alt: the statement's blocks / thick features are the transcript's block / thick features whatever seqid their own "
+    "record carries (its quantifier does not confine children to the transcript's seqid): one block per block feature, "
+    "ValueError when they do not span the feature; only GFF3 (the transcript record is explicit there; which seqid an "
+    "inferred GTF transcript gets from exons on two seqids is not stated); records sharing one ID across seqids are not generated",
+    "stale: the statement describes bed12 of a transcript 'given an id or a Feature' and does not say what it is a function "
+    "of when the Feature object given disagrees with the database record (fetched before a replace, edited by the "
+    "caller): that call is made, counted by the reading its result agrees with (record re-fetched by id / the object's own "
+    "coordinates) and NOT judged; judged are bed12 by id (on every open handle of the file) and by a fresh copy after "
+    "the replace - the record committed by update() is the transcript - and by id again after the call with the stale object",
     "sequence(): features lie inside the named sequence; alphabet ACGTN plus the IUPAC ambiguity codes, both cases; complement = the standard IUPAC table",
 ]
 QUICK_SHARDS = 4
@@ -200,7 +236,7 @@ def setup(ctx):
 
 def execute(ctx, case):
     return {"seq": run_seq, "bed12": run_bed12, "seqrw": run_seqrw, "seqobj": run_seqobj,
-            "seqtwin": run_seqtwin}[case["kind"]](ctx, case)
+            "seqtwin": run_seqtwin, "stale": run_stale}[case["kind"]](ctx, case)
 
 
 # ---------------------------------------------------------------------------------
@@ -581,7 +617,7 @@ def annotation_text(case):
                 else:
                     extra = ";ID=%s.c%d" % (t["id"], n) if n % 3 == 0 else ""
                 lines.append("%s\tsrc\t%s\t%d\t%d\t.\t%s\t%s\tParent=%s%s" % (
-                    t["seqid"], c["type"], c["start"], c["end"], t["strand"], "0" if c["type"] == "CDS" else ".",
+                    c.get("seqid") or t["seqid"], c["type"], c["start"], c["end"], t["strand"], "0" if c["type"] == "CDS" else ".",
                     t["id"] + ".p" if c["type"] in via else t["id"], extra))
     else:
         for t in ts:
@@ -693,6 +729,8 @@ def one_call(ctx, case, db, ci, c):
                         "transcript boundary")
         if deep:
             ctx.mon("bed12 deep: ValueError expected and raised")
+        if case.get("alt"):
+            alt_counters(ctx, t, c, None)
         if case.get("sub"):
             ctx.mon("bed12 substring names: ValueError expected and raised")
         return None
@@ -770,6 +808,8 @@ def one_call(ctx, case, db, ci, c):
             ctx.mon(pre + "single-block exports while only look-alike children exist")
     if exp["thick_present"]:
         ctx.mon("bed12 thickStart/thickEnd judged")
+    if case.get("alt"):
+        alt_counters(ctx, t, c, exp)
     blocks_sel = M.select(t["children"], c["block"])
     thick_sel = M.select(t["children"], c["thick"])
     spans = bool(blocks_sel) and blocks_sel[0]["start"] == t["start"] and blocks_sel[-1]["end"] == t["end"]
@@ -810,9 +850,174 @@ def one_call(ctx, case, db, ci, c):
                 ctx.mon("bed12 duplicated records: to_bed12 lines compared")
             if case.get("look") and M.lookalikes(t["children"], c["block"]):
                 ctx.mon("bed12 look-alike types: to_bed12 lines compared")
+            if case.get("alt") and any(x.get("seqid") for x in blocks_sel):
+                ctx.mon("bed12 other-seqid children: to_bed12 lines compared")
             if why:
                 return dict(info, why="convert.to_bed12: " + why, detail=detail, got=out)
     return None
+
+
+def alt_counters(ctx, t, c, exp):
+    """What a call saw of children recorded on another seqid than the transcript (exp None = ValueError expected and raised)."""
+    pre = "bed12 other-seqid children: "
+    blocks = M.select(t["children"], c["block"])
+    thick = M.select(t["children"], c["thick"])
+    ab = [i for i, x in enumerate(blocks) if x.get("seqid")]
+    at = [i for i, x in enumerate(thick) if x.get("seqid")]
+    if exp is None:
+        if ab:
+            ctx.mon(pre + "ValueError expected and raised with a block feature on another seqid")
+            on = [x for x in blocks if not x.get("seqid")]
+            if on and on[0]["start"] == t["start"] and on[-1]["end"] == t["end"]:
+                ctx.mon(pre + "ValueError expected and raised while the blocks on the transcript's own seqid alone would span it")
+        return
+    if ab:
+        ctx.mon(pre + "lines compared with a block feature on another seqid (one block per block feature)")
+        if 0 in ab:
+            ctx.mon(pre + "first block on another seqid")
+        if len(blocks) - 1 in ab:
+            ctx.mon(pre + "last block on another seqid")
+        if any(0 < i < len(blocks) - 1 for i in ab):
+            ctx.mon(pre + "inner block on another seqid")
+        if len(ab) == len(blocks):
+            ctx.mon(pre + "every block on another seqid")
+    if at and exp["thick_present"]:
+        ctx.mon(pre + "thick range judged with a thick feature on another seqid")
+        if 0 in at or len(thick) - 1 in at:
+            ctx.mon(pre + "thick range judged whose first / last thick feature is on another seqid")
+    if c["thin"] and any(x.get("seqid") for x in M.select(t["children"], c["thin"])):
+        ctx.mon(pre + "thin features on another seqid (thickStart/thickEnd not judged, other fields judged)")
+
+
+# ---------------------------------------------------------------------------------
+# bed12 given a Feature object that is not a fresh copy of the database record
+# ---------------------------------------------------------------------------------
+def bed12_outcome(db, arg, c):
+    """("line", text) or ("raised", exception)."""
+    from gffutils import constants
+
+    try:
+        return "line", db.bed12(arg, block_featuretype=c["block"], thick_featuretype=c["thick"], thin_featuretype=c["thin"],
+                                name_field=c["name_field"], color=c["color"])
+    except Exception as ex:
+        return "raised", ex
+    finally:
+        constants.always_return_list = True
+
+
+def agrees(outcome, exp):
+    """why-not (str) or None: does the outcome of a call agree with an expectation of the model?"""
+    kind, val = outcome
+    if "raises" in exp:
+        if kind == "raised" and isinstance(val, ValueError):
+            return None
+        return "blocks do not span the feature but bed12 %s" % ("returned a line" if kind == "line" else "raised %s" % type(val).__name__)
+    if kind == "raised":
+        return "bed12 raised %s (%r)" % (type(val).__name__, val)
+    why, detail = M.judge_bed12(val, exp)
+    return None if not why else "%s: %r" % (why, detail)
+
+
+def run_stale(ctx, case):
+    import gffutils
+    from gffutils.feature import feature_from_line
+
+    text = annotation_text(case)
+    t = case["transcripts"][case["t"]]
+    how = case["how"]
+    ns, ne = case["new"]
+    score = case.get("new_score") or t["score"]
+    dbfn = ctx.tmp(".db") if case.get("file") else ":memory:"
+    handles = []
+    pre = "bed12 stale objects: "
+    try:
+        try:
+            db = gffutils.create_db(text, dbfn, from_string=True)
+            handles.append(db)
+            older = db
+            if how == "older_handle":
+                older = gffutils.FeatureDB(dbfn)
+                handles.append(older)
+            held = older[t["id"]]       # the caller's object
+            if (held.start, held.end, held.seqid) != (t["start"], t["end"], t["seqid"]):
+                raise AssertionError("harness: stored transcript differs from the generated one")
+            if how == "edited":
+                held.start, held.end = ns, ne
+                now = t
+                ctx.mon(pre + "objects edited by the caller (start/end assigned)")
+            else:
+                line = "%s\tsrc\t%s\t%d\t%d\t%s\t%s\t.\t%s" % (t["seqid"], t["type"], ns, ne, score, t["strand"], gff3_attrs(t["attrs"]))
+                db.update([feature_from_line(line)], merge_strategy="replace")
+                now = dict(t, start=ns, end=ne, score=score)
+                ctx.mon(pre + "records replaced with other coordinates through update(merge_strategy='replace')")
+                if how == "older_handle":
+                    ctx.mon(pre + "objects fetched through a handle opened before the replace")
+        except AssertionError:
+            raise
+        except Exception as ex:
+            ctx.violation(case, {"why": "preparing the database raised %s" % type(ex).__name__, "exception": repr(ex), "text": text})
+            return
+        # the record as the database holds it now (independent of bed12)
+        rec = db[t["id"]]
+        if (rec.start, rec.end, rec.score) != (now["start"], now["end"], now["score"]):
+            ctx.violation(case, {"why": "after update(merge_strategy='replace') the database record does not carry the new coordinates",
+                                 "record": str(rec), "expected": [now["start"], now["end"], now["score"]]})
+            return
+        for ci, c in enumerate(case["calls"]):
+            opts = {"block": c["block"], "thick": c["thick"], "thin": c["thin"], "name_field": c["name_field"], "color": c["color"]}
+            exp = M.bed12_expect(now, t["children"], opts)
+            as_object = M.bed12_expect(dict(now, start=held.start, end=held.end, score=held.score), t["children"], opts)
+            info = {"call": ci, "transcript": t["id"], "how": how, "options": opts, "text": text,
+                    "record now": [now["start"], now["end"]], "object held": [held.start, held.end]}
+            empty = not M.select(t["children"], c["block"])
+            # judged: the id (and a fresh copy of the record) after the replace / next to an edited object
+            given = [("a fresh copy of the record", db, lambda: db[t["id"]])]
+            if not empty:       # by id without block children: F-C18-1 territory, asked by the bed12 phases
+                given.insert(0, ("the id", db, lambda: t["id"]))
+                if how == "older_handle":
+                    given.append(("the id, asked of the handle opened before the replace", older, lambda: t["id"]))
+            for label, handle, arg in given:
+                out = bed12_outcome(handle, arg(), c)
+                ctx.mon(pre + "bed12 given %s judged against the record as it is now" % label)
+                if "raises" in exp:
+                    ctx.mon(pre + "ValueError expected from the record as it is now")
+                why = agrees(out, exp)
+                if why:
+                    ctx.violation(case, dict(info, why="bed12 given %s, %s: %s" % (
+                        label, "next to an object edited by the caller" if how == "edited" else "after the record was replaced", why),
+                        got=repr(out[1])))
+                    return
+            # not judged (the statement does not say what bed12 is a function of when the object given disagrees with
+            # the database): counted by which reading the result agrees with
+            out = bed12_outcome(older, held, c)
+            a, b = agrees(out, exp) is None, agrees(out, as_object) is None
+            ctx.skip("bed12 given a Feature object that disagrees with the database record: not judged")
+            ctx.mon(pre + "bed12 given the stale / edited object (not judged)")
+            if a and b:
+                ctx.mon(pre + "stale-object result agrees with both readings (they coincide)")
+            elif a:
+                ctx.mon(pre + "stale-object result is that of the database record (re-fetched by id)")
+            elif b:
+                ctx.mon(pre + "stale-object result is that of the object's own coordinates")
+            else:
+                ctx.mon(pre + "stale-object result agrees with neither reading")
+            # the call with the object must not have changed what the id gives
+            if not empty:
+                why = agrees(bed12_outcome(db, t["id"], c), exp)
+                ctx.mon(pre + "bed12 given the id judged again after the call with the stale object")
+                if why:
+                    ctx.violation(case, dict(info, why="bed12 given the id after a call with a stale object: " + why))
+                    return
+    finally:
+        for h in handles:
+            try:
+                h.conn.close()
+            except Exception:
+                pass
+        if dbfn != ":memory:":
+            for p in (dbfn, dbfn + "-journal"):
+                if os.path.exists(p):
+                    os.unlink(p)
 
 
 def case_classes(case):
@@ -913,6 +1118,24 @@ def run(ctx):
         for t in case["transcripts"]:
             for k in t.get("dups", []) + t.get("reach", []):
                 ctx.classes["bed12 %s: %s" % (which, k)] += 1
+    # 2d. block / thick children recorded on another seqid than the transcript
+    for _ in range(ctx.budget(700, 24000)):
+        case = G.altseq_case(rng)
+        execute(ctx, case)
+        classes, nontrivial = case_classes(case)
+        ctx.case(case, True, sample={"calls": case["calls"][:1], "text": annotation_text(case)[:700]} if rng.random() < 0.02 else None,
+                 cls="bed12 children on another seqid")
+        for t in case["transcripts"]:
+            for k in t.get("alt", []):
+                ctx.classes["bed12 other seqid: " + k] += 1
+    # 2e. Feature objects that are not a fresh copy of the database record
+    for _ in range(ctx.budget(500, 16000)):
+        case = G.stale_case(rng)
+        if not case["calls"]:
+            continue
+        execute(ctx, case)
+        ctx.case(case, True, sample={"how": case["how"], "new": case["new"], "calls": case["calls"][:1], "text": annotation_text(case)[:500]}
+                 if rng.random() < 0.02 else None, cls="bed12 stale object: " + case["how"])
     # 2. bed12 (transcripts whose block selection is empty are given as Feature here)
     bed_phase(ctx, rng, ctx.budget(3000, 120000), False)
     # 3. bed12 by id for transcripts without block children: last, so that a defect there cannot push other reports
@@ -960,8 +1183,11 @@ MANIFEST = {
             "The same FASTA path is rewritten "
             "between sequence() calls (index removed or left behind, overwrite or replace), and readers opened with "
             "key_function / split_char / read_long_names / as_raw are passed to sequence(). "
+            "bed12 is also asked for transcripts whose block / thick children are recorded on another seqid, and - by id, by "
+            "a fresh copy and through an older handle - after the transcript record was replaced with other coordinates. "
             "Held = no executed case disagreed.",
-    "note": "Trusted: the 60-line field model, pyfaidx as file reader. Not judged: thickStart/thickEnd without thick "
+    "note": "Trusted: the 60-line field model, pyfaidx as file reader. Not judged: bed12 given a Feature object that "
+            "disagrees with the database record (stale / edited; counted by reading), thickStart/thickEnd without thick "
             "features, thin choices, calls with neither thick nor thin featuretype. F-C18-1: bed12(<id string>) for a "
             "transcript without block children raises AttributeError.",
 }
